@@ -41,6 +41,11 @@ def base_problem(kind, rng, anti):
         p.blockprops = [dict(name="air", Kx=1.0, Ky=1.0), dict(name="heated", Kx=2.0, Ky=2.0, qv=rng.choice([1000.0, -500.0])),
                         dict(name="metal", Kx=rng.choice([20.0, 45.0]), Ky=rng.choice([20.0, 45.0]))]
         p.bdryprops = [dict(name="per1", type=t), dict(name="per2", type=t), dict(name="zero", type=0, Tset=0.0)]
+    # half of the problems carry a source in the background region too, i.e. in the elements next to the paired sides: the right-hand
+    # sides of tied unknowns are then non-zero and not already (anti)symmetric, so the way a tie combines them matters
+    if rng.random() < 0.5:
+        p.blockprops[0][{"m": "J_re", "e": "qv", "h": "qv"}[kind]] = {"m": rng.choice([0.5, -0.25]), "e": rng.choice([5e-7, -1e-6]), "h": rng.choice([300.0, -200.0])}[kind]
+        p.background_source = True
     return p
 
 
